@@ -53,5 +53,9 @@ CLAIMS["C10"] = {
     "text": "Symbolic execution of the real manifest/deployment cross-validation (validateManifestDeploymentGroup with the generated CPU/Memory/Storage.Equal, util.ShouldBeIngress, validateManifestDeploymentGroups) over symbolic resource units, replica counts and exposes; obligations in both directions the statement gives: accepted implies equal per-unit replica totals and equal endpoint counts, and equal totals imply the rejection is not a resource cross-validation error, whatever the split or order.",
     "note": "Trusted: engine SSA semantics, integer model. Bounds 2x2 (thorough 3x3) records x services. The hash part of the statement (serialization-order independence, sensitivity to every field) runs through reflection-driven json.Marshal, SortJSON and SHA-256 and is NOT covered by this family; the version comparison in the manifest manager is covered with C20.",
 }
+CLAIMS["C18"] = {
+    "text": "Symbolic execution of (*v2).DeploymentGroups and (*v2).Manifest (with toResourceUnits, ParseServiceProtocol, ShouldBeIngress, the real sort code) on a decoded SDL value with symbolic leaves; obligations: every declared image/command/argument/env/exposure/count/resources/price appears unchanged at its place in the outputs; for valid documents the real ValidateManifestWithGroupSpecs accepts the manifest against the groups of the same document; and, as a 2-run self-composition over every Go map iteration order, groups and manifest are identical on every run.",
+    "note": "Trusted: engine SSA semantics, sort via real code, regexps evaluated natively on concrete names. Bounds: <=2 services x <=2 placements x <=2 profiles, 1..2 exposes. YAML decoding, unit-string parsing and the version hash are outside this family (stated); key reordering is covered as Go map order.",
+}
 NOT_APPLICABLE = {}
 NOTES = "Work in progress: checks are added property by property; see DESIGN.md §9 for deviations from the plan."
